@@ -382,3 +382,7 @@ _add(
     "C25",
     m("fork-edge-dropped", D, "        for fork_parent, fork in fork_edges:\n            get_or_create(\n                self.session,\n                HandleEdge,\n                {\n                    \"parent_id\": fork_parent.__handle__.hash,\n                    \"child_id\": fork.__handle__.hash,\n                },\n            )\n", "", "C25.3"),
 )
+_add(
+    "C27",
+    m("options-clone-drops-exports", T, "            task_options_override=new_task_options_update,\n            export_options=self._export_options,\n        )", "            task_options_override=new_task_options_update,\n        )", "C27.5"),
+)
